@@ -11,6 +11,8 @@ fn main() {
     let deep = Spec { n_min: 0, n_max: 4, e_min: 0, e_max: 0, ks: 0, kt: 0, lw: 2, lx: 1, a: 1, b: 1, q: 3 };
     let u = deep.universe();
     ctx.run_slice(Slice::new(format!("q-deep[{}]", deep.name()), u.count(), |i, loc| check_input(&u.get(i), loc)));
+    // the same inputs with labels whose equality ignores a tag: a failed quotient must leave the tags where they were
+    ctx.run_slice(Slice::new(format!("q-deep-tagged-labels[{}]", deep.name()), u.count(), |i, loc| check_tagged(&u.get(i), loc)));
     let edges = if quick { Spec::lax(3, 1, 2, 2, 1, 1, 1, 2) } else { Spec::lax(3, 1, 2, 2, 1, 2, 2, 3) };
     let ue = edges.universe();
     ctx.run_slice(Slice::new(format!("q-edges[{}]", edges.name()), ue.count(), |i, loc| check_input(&ue.get(i), loc)));
